@@ -156,11 +156,13 @@ NextSample(c, ts) ==
       j == CHOOSE i \in 1..Len(os) : os[i] = o
   IN IF j < Len(os) THEN (ts - o) + os[j + 1] ELSE (ts - o) + Ms
 
-(* what is observed at an instant: the schedule triple (normalised: when nobody is scheduled only *)
-(* the term is compared) and the result class of CheckMinerMatch for a candidate block of every   *)
-(* proposer carrying this timestamp                                                               *)
-Norm(c, s) == IF Valid(c, s) \/ s.pos < 0 THEN Key(s) ELSE <<s.term, -1, -1>>
-ObsAtW(c, ts, dv) == [sched |-> Norm(c, SchedW(c, ts, dv)), acc |-> [i \in 1..(c.n + 2) |-> ClassW(c, i - 1, ts, dv)]]
+(* what is observed at an instant: the schedule triple - compared only where the property speaks,  *)
+(* i.e. when somebody is scheduled, at or after the origin; the triple the code computes for an   *)
+(* unassigned instant is its own business - and the result class of CheckMinerMatch for a         *)
+(* candidate block of every proposer carrying this timestamp                                      *)
+NotCompared == <<-1, -1, -1>>
+Norm(c, s, ts) == IF ts >= Origin(c) /\ Valid(c, s) THEN Key(s) ELSE NotCompared
+ObsAtW(c, ts, dv) == [sched |-> Norm(c, SchedW(c, ts, dv), ts), acc |-> [i \in 1..(c.n + 2) |-> ClassW(c, i - 1, ts, dv)]]
 ObsAt(c, ts) == ObsAtW(c, ts, FALSE)
 AtEvent(c, ts) == [op |-> "at", ts |-> ts, sched |-> ObsAt(c, ts).sched, acc |-> ObsAt(c, ts).acc]
 CfgEvent(c) == [op |-> "cfg", cfg |-> c]
